@@ -107,6 +107,14 @@ def c13_run(ctx):
     ctx.trace_validate("clientconn", "TestClientConnTrace", "TraceClientConn.tla", "TraceClientConn.cfg", n)
 
 
+def c18_run(ctx):
+    core_run(["MC_steps", "MC_clienttxn", "MC_clienttxnLive"], ["GEN_steps", "GEN_tcpA", "GEN_tcpB", "GEN_lifeB", "GEN_clienttxnA"])(ctx)
+    if not ctx.violations:   # the real client under the random drivers: only "did not crash, did not lock up" is judged here
+        n = 30 if ctx.tier == "quick" else 300
+        ctx.trace_validate("clientconn", "TestClientConnTrace", None, None, n, alive_only=True)
+        ctx.trace_validate("relay", "TestRelayTrace", None, None, n, alive_only=True)
+
+
 def c05_run(ctx):
     core_run(["MC_mtu"], ["GEN_mtu", "GEN_mtu1200", "GEN_relayA"])(ctx)
     if not ctx.violations:
@@ -220,8 +228,10 @@ PROPS = {
                              "which must not be used by another process while the check runs",
                              "the random source is scripted per draw by class (lowest / highest / middle / colliding port), whatever n the code asks for"]),
     "C18": dict(title="no lock-ups, leaked locks or teardown crashes under concurrency", level="model_checking",
-                run=core_run(["MC_steps", "MC_clienttxn", "MC_clienttxnLive"], ["GEN_steps", "GEN_tcpA", "GEN_lifeB", "GEN_clienttxnA"]),
-                assumptions=["Engine G: TurnServerSteps.tla models a CreatePermission / ChannelBind handler and the permission, channel and allocation timer callbacks at the granularity of the code's scheduling marks "
+                run=c18_run,
+                assumptions=["client side: the random drivers of C13 and C05 (real turn.Client against a scripted and against the real server: 438 / 400 / 403 / silence, concurrent writers, bursts, Close) run under the real-time watchdog; "
+                             "a goroutine stuck on a mutex or a crash is the verdict, what they record is judged by C13 / C05",
+                             "Engine G: TurnServerSteps.tla models a CreatePermission / ChannelBind handler and the permission, channel and allocation timer callbacks at the granularity of the code's scheduling marks "
                              "(verifhook.At calls and operator call-outs); TLC enumerates all 1308 interleavings from 28 initial situations and checks NoCrash, NoDeadlock, LocksBalanced, Answered; every interleaving is forced on the real server by parking each goroutine at its marks",
                              "after every step: lifecycle events so far, permission table; after every interleaving: response, tables, TryLock probes of every manager/allocation lock, one-hour drain; a panic in any goroutine kills the child and is reported with the interleaving; "
                              "a goroutine stuck on a mutex is reported by the real-time watchdog",
